@@ -621,7 +621,96 @@ def relay_cycles(case: Dict[str, Any]) -> Tuple[List[Tuple[str, Any]], Dict[str,
     return bad, c
 
 
+def manager_burst(case: Dict[str, Any]) -> Tuple[List[Tuple[str, Any]], Dict[str, int]]:
+    """The event bus as the product assembles it (EventManager: its own queue + dispatcher thread) under a burst: thousands of
+    events, core-named and custom-named ('pre-defined or custom event name'), published as fast as two threads can while one
+    subscriber reads slowly at first.  Every one of them reaches the subscriber exactly once, per publisher in order."""
+    from proxy.core.event import EventManager
+    rng = random.Random('c18b:%s:%s' % (case['seed'], case['i']))
+    bad: List[Tuple[str, Any]] = []
+    inconclusive = False
+    n_each, npub = case['events'], 2
+    names = [eventNames.WORK_STARTED, eventNames.WORK_FINISHED, 1000, 0, 4242]
+    mgr = EventManager()
+    mgr.setup()
+    rd = Reader('burst', duplex=True)
+    got_names: Dict[Any, int] = {}
+    try:
+        assert mgr.queue is not None
+        eq = mgr.queue
+        rd.start()
+        eq.subscribe(rd.sid, rd.send)
+        end = time.time() + WAIT_S
+        while not rd.subscribed.is_set() and time.time() < end:
+            time.sleep(0.002)
+        if not rd.subscribed.is_set():
+            inconclusive = True
+        else:
+            def publisher(p: int) -> None:
+                for n in range(n_each):
+                    eq.publish(request_id='r', event_name=names[(n + p) % len(names)], event_payload={'id': [p, n]}, publisher_id='p%d' % p)
+            ths = [threading.Thread(target=publisher, args=(p,)) for p in range(npub)]
+            for t in ths:
+                t.start()
+            for t in ths:
+                t.join(WAIT_S * 6)
+                if t.is_alive():
+                    inconclusive = True
+            total = n_each * npub
+            last, since = -1, time.time()
+            while len(rd.got) < total and not inconclusive:
+                if len(rd.got) != last:
+                    last, since = len(rd.got), time.time()
+                elif time.time() - since > 8.0:
+                    break       # nothing has arrived for 8 s although the dispatcher has nothing else to do
+                if mgr.dispatcher_thread is None or not mgr.dispatcher_thread.is_alive():
+                    bad.append(('dispatcher-thread-died', None))
+                    break
+                time.sleep(0.01)
+            got = list(rd.got)
+            if not bad and not inconclusive:
+                if len(got) != len(set(got)):
+                    bad.append(('burst-duplicate', None))
+                elif len(got) < total:
+                    missing = sorted({(p, n) for p in range(npub) for n in range(n_each)} - set(got))
+                    by_name: Dict[str, int] = {}
+                    for (p, n) in missing:
+                        k = str(names[(n + p) % len(names)])
+                        by_name[k] = by_name.get(k, 0) + 1
+                    only_custom = set(by_name) <= {'1000', '0', '4242'}
+                    bad.append(('burst-lost-custom-named-events' if only_custom else 'burst-lost', {'got': len(got), 'published': total, 'missing_by_event_name': by_name,
+                                                                                                    'first_missing': missing[:3]}))
+                else:
+                    for p in range(npub):
+                        seq = [n for (pp, n) in got if pp == p]
+                        if seq != sorted(seq):
+                            bad.append(('burst-publisher-order-violated', {'publisher': p}))
+    finally:
+        try:
+            mgr.shutdown()
+        except Exception:
+            pass
+        rd.close()
+        if mgr.dispatcher is not None:
+            for c in list(mgr.dispatcher.subscribers.values()):
+                try:
+                    c.close()
+                except Exception:
+                    pass
+        if mgr.queue is not None:
+            dispose_queue(mgr.queue.queue)
+    c = {'burst_runs': 1, 'burst_events_delivered': len(rd.got)}
+    if inconclusive:
+        c['_inconclusive'] = 1
+    return bad, c
+
+
 def run_case(case: Dict[str, Any]) -> Dict[str, Any]:
+    if case['kind'] == 'manager-burst':
+        bad, counters = manager_burst(case)
+        inconc = 'burst-harness-timeout' if counters.pop('_inconclusive', 0) else None
+        return {'viol': [{'key': 'manager-burst|%s' % w, 'detail': d} for (w, d) in bad], 'nontrivial': True,
+                'sig': 'burst/%s' % case['i'], 'obs': counters, 'inconclusive': inconc, 'sample': {'kind': 'manager-burst', 'case': case}}
     if case['kind'] == 'relay-cycles':
         bad, counters = relay_cycles(case)
         inconc = 'relay-wait-timeout' if counters.pop('_inconclusive', 0) else None
@@ -755,6 +844,9 @@ def cases(tier: str, seed: int):
     for k in range(4 if tier == 'quick' else 40):
         i += 1
         yield {'seed': seed, 'i': i, 'kind': 'relay-cycles', 'cycles': rng.choice([2, 3])}
+    for k in range(3 if tier == 'quick' else 30):
+        i += 1
+        yield {'seed': seed, 'i': i, 'kind': 'manager-burst', 'events': [3000, 6000, 12000][k % 3]}
     for k in range(16 if tier == 'quick' else 400):
         i += 1
         yield {'seed': seed, 'i': i, 'kind': 'stress', 'publishers': rng.choice([1, 2, 4, 8]), 'events': rng.choice([50, 200, 400]),
@@ -766,7 +858,7 @@ def floors(tier: str) -> Dict[str, int]:
     return {'histories': 3000, 'nontrivial_histories': 1000, 'breaks': 500, 'breaks_with_unread_data': 100,
             'deliveries_checked': 5000, 'via_queue': 100, 'stress_runs': 10, 'stress_deliveries_checked': 5000,
             'stress_mid_subscribers': 8, 'stress_mid_must_events': 200, 'stress_breakers': 3,
-            'resubscribes': 100, 'relay_cycles': 6, 'relay_resetups': 3}
+            'resubscribes': 100, 'relay_cycles': 6, 'relay_resetups': 3, 'burst_runs': 2, 'burst_events_delivered': 15000}
 
 
 if __name__ == '__main__':
